@@ -50,6 +50,26 @@ def run(chk):
            (n, n2, len(LAYOUT_SENSITIVE), hits), n >= 250 and n2 >= 250, key='scan-floor')
     chk.note('ndarray_call_sites_mir', n)
     chk.note('ndarray_call_sites_thir', n2)
+    # R13.4 closures handed to ndarray (whose traversal order follows the memory layout) must not carry state between elements
+    chk.rule('R13.4', "no closure passed to an ndarray traversal (mapv, map, map_inplace, for_each, fold*, Zip::*) captures a variable by mutable borrow: "
+                      "ndarray visits elements in memory order, so state carried from one element to the next makes the result layout dependent")
+    n_clo = 0
+    for d, b in lib.bodies.items():
+        for x in calls(b.get('root')):
+            cal = x['callee']
+            if cal.get('crate') != 'ndarray' and 'ndarray::' not in (cal.get('resolved') or ''):
+                continue
+            for a in x['args']:
+                a = peel(a)
+                if a.get('k') != 'Closure':
+                    continue
+                n_clo += 1
+                muts = [peel(u).get('var') or peel(u).get('k') for u in a.get('upvars', []) if u.get('k') == 'Borrow' and 'Mut' in u.get('bk', '')]
+                name = strip_generics(cal.get('resolved') or cal['path']).split('::')[-1]
+                fn = strip_generics(d)
+                chk.ob('R13.4', "%s: the closure passed to ndarray `%s` carries no mutable state between elements (mutably captured: %s)" % (fn, name, muts),
+                       not muts, line_of(x), 'stateful-closure-%s-%s' % (fn.split('::{closure')[0], name))
+    chk.floor('R13.4', 'closures passed to ndarray traversals', n_clo, 15)
     # R13.2
     n_exp = 0
     for u in f['unsafe_blocks']:
